@@ -36,6 +36,11 @@ ROOTS = [
     ("BrotliStoreMetaBlockTrivial", None, "src/enc/brotli_bit_stream.rs", []),
     ("BrotliStoreMetaBlockFast", None, "src/enc/brotli_bit_stream.rs", []),
     ("BrotliStoreUncompressedMetaBlock", None, "src/enc/brotli_bit_stream.rs", []),
+    # methods of the IR logger's option structures that re-allocate a field of a LIVE object (`if len > capacity
+    # { new = alloc; copy; free_cell(replace(&mut self.f, new)) }`): 5th entry = parameters under which places may
+    # already hold a block at entry
+    ("update_block_type", "StrideEval", "src/enc/stride_eval.rs", ["self"], ["self"]),
+    ("push", "CommandQueue", "src/enc/brotli_bit_stream.rs", ["self"], ["self"]),
 ]
 
 
@@ -682,6 +687,11 @@ class Body:
             return ("skip",)
         if value[0] == "callret":
             return value[1](None)
+        if value[0] == "replace":
+            # `mem::replace(&mut P, V);` as a statement: the old content of P is dropped without free_cell
+            tmp = ["$dropped%d" % self.site]
+            self.site += 1
+            return seq(("move", value[1], tmp), self.assign(value[1], value[2]))
         raise Unavailable("allocated value is discarded")
 
     def assign(self, lhs, value):
@@ -1618,7 +1628,11 @@ def emit_lean(gen, roots_found):
     lines.append("")
     lines.append("/-- (root function, function id, atoms of the parameters through which blocks may enter / leave) -/")
     lines.append("def skelRoots : List (String × Nat × List Nat) := [%s]" % ", ".join(
-        '("%s", %d, [%s])' % (nm, fid, ", ".join(str(atom(a)) for a in esc)) for nm, fid, esc in roots_found))
+        '("%s", %d, [%s])' % (nm, fid, ", ".join(str(atom(a)) for a in esc)) for nm, fid, esc, inn in roots_found))
+    lines.append("")
+    lines.append("/-- per root (same order): atoms of the parameters under which places may already hold a block at ENTRY -/")
+    lines.append("def skelRootsIn : List (List Nat) := [%s]" % ", ".join(
+        "[%s]" % ", ".join(str(atom(a)) for a in inn) for nm, fid, esc, inn in roots_found))
     lines.append("")
     un = [(f, gen.why.get(f.key, "?")) for f in gen.order if gen.skel.get(f.key) is None]
     lines.append("/-- functions of the call trees whose skeleton could not be extracted (their calls are `opaque`) -/")
@@ -1649,7 +1663,10 @@ def generate(tokens_of, repo, outdir):
     try:
         gen = Gen(tokens_of, repo_enc_files(repo))
         roots_found = []
-        for nm, impl, path, esc in ROOTS:
+        for root in ROOTS:
+            nm, impl, path, esc = root[:4]
+            inn = root[4] if len(root) > 4 else []
+            nm_q = ((impl + "::") if impl else "") + nm
             cands = [f for f in gen.by_name.get(nm, []) if f.impl == impl and f.path == path]
             if len(cands) != 1:
                 notes.append("skeleton root %s: %d definitions in %s (not covered by proof; run-time check decides)" % (nm, len(cands), path))
@@ -1659,7 +1676,7 @@ def generate(tokens_of, repo, outdir):
             if not gen.available(f):
                 notes.append("skeleton unavailable for root %s: %s (not covered by proof; run-time check decides)" % (nm, gen.why.get(f.key)))
                 continue
-            roots_found.append((nm, fid, esc))
+            roots_found.append((nm_q, fid, esc, inn))
         # build everything that got an id (callees are built on demand while their callers are parsed)
         k = 0
         while k < len(gen.order):
@@ -1689,7 +1706,7 @@ def generate(tokens_of, repo, outdir):
                     reach(x[1], seen)
             walk(n)
         kept = []
-        for nm, fid, esc in roots_found:
+        for nm, fid, esc, inn in roots_found:
             seen = set()
             reach(fid, seen)
             bad = sorted(qname(gen.order[i]) for i in seen
@@ -1697,7 +1714,7 @@ def generate(tokens_of, repo, outdir):
             if bad:
                 notes.append("skeleton root %s makes no claim: unexpected opaque callee(s) %s (run-time check decides)" % (nm, ", ".join(bad)))
             else:
-                kept.append((nm, fid, esc))
+                kept.append((nm, fid, esc, inn))
         roots_found = kept
         text, un = emit_lean(gen, roots_found)
         for f, w in un:
@@ -1705,7 +1722,7 @@ def generate(tokens_of, repo, outdir):
     except Exception as e:   # the generator must never take the check down
         text = ("-- GENERATED by tools/gen_skel.py: extraction failed (%s)\nimport BV.Model.AllocSkel\nnamespace BV.Gen\nopen BV.Skel\n"
                 "def skelFns : List Sk := []\ndef skelFnNames : List String := []\ndef skelAtoms : List (Nat × String) := []\n"
-                "def skelTypes : List String := [\"?\"]\ndef skelRoots : List (String × Nat × List Nat) := []\n"
+                "def skelTypes : List String := [\"?\"]\ndef skelRoots : List (String × Nat × List Nat) := []\ndef skelRootsIn : List (List Nat) := []\n"
                 "def skelUnavailable : List (String × String) := []\nend BV.Gen\n" % type(e).__name__)
         notes.append("skeleton extraction failed entirely (%s: %s): nothing covered by proof, run-time check decides" % (type(e).__name__, e))
     p = os.path.join(outdir, "LedgerSkel.lean")
